@@ -8,10 +8,13 @@ import (
 	"sort"
 
 	"github.com/ipfs/go-cid"
+	ipld "github.com/ipld/go-ipld-prime"
 	"github.com/ipld/go-ipld-prime/codec/dagcbor"
 	"github.com/ipld/go-ipld-prime/datamodel"
 	cidlink "github.com/ipld/go-ipld-prime/linking/cid"
 	"github.com/ipld/go-ipld-prime/node/basicnode"
+	"github.com/ipld/go-ipld-prime/node/bindnode"
+	"github.com/ipld/go-ipld-prime/schema"
 	"github.com/libp2p/go-libp2p/core/peer"
 	mh "github.com/multiformats/go-multihash"
 	"pgregory.net/rapid"
@@ -210,10 +213,52 @@ func TypeID() *rapid.Generator[datatransfer.TypeIdentifier] {
 	})
 }
 
-// Voucher draws a typed voucher with an arbitrary value.
+// Voucher draws a typed voucher with an arbitrary value; one in five is a
+// schema-typed (bindnode) node whose representation differs from its type-level view.
 func Voucher(o NodeOpts) *rapid.Generator[datatransfer.TypedVoucher] {
 	return rapid.Custom(func(t *rapid.T) datatransfer.TypedVoucher {
+		if rapid.IntRange(0, 4).Draw(t, "schemaTyped") == 0 {
+			return datatransfer.TypedVoucher{Type: TypeID().Draw(t, "vtype"), Voucher: SchemaTyped().Draw(t, "vtyped")}
+		}
 		return datatransfer.TypedVoucher{Type: TypeID().Draw(t, "vtype"), Voucher: Node(o).Draw(t, "vnode")}
+	})
+}
+
+// A client-side voucher type with a tuple-represented part and a renamed field.
+type terms struct {
+	PricePerByte int64
+	Interval     int64
+}
+type dealVoucher struct {
+	Amount int64
+	Deal   string
+	Terms  terms
+}
+
+var dealVoucherType = func() schema.Type {
+	ts, err := ipld.LoadSchemaBytes([]byte(`
+		type Terms struct {
+			PricePerByte Int
+			Interval Int
+		} representation tuple
+		type DealVoucher struct {
+			Amount Int
+			Deal String
+			Terms Terms (rename "t")
+		}
+	`))
+	if err != nil {
+		panic(err)
+	}
+	return ts.TypeByName("DealVoucher")
+}()
+
+// SchemaTyped draws a bindnode-typed value (NOT its representation).
+func SchemaTyped() *rapid.Generator[datamodel.Node] {
+	return rapid.Custom(func(t *rapid.T) datamodel.Node {
+		v := &dealVoucher{Amount: int64(rapid.IntRange(0, 1000).Draw(t, "amount")), Deal: rapid.StringMatching("[a-z]{1,6}").Draw(t, "deal"),
+			Terms: terms{PricePerByte: int64(rapid.IntRange(0, 9).Draw(t, "ppb")), Interval: int64(rapid.IntRange(1, 4096).Draw(t, "interval"))}}
+		return bindnode.Wrap(v, dealVoucherType)
 	})
 }
 
@@ -224,10 +269,14 @@ func SmallVoucher() *rapid.Generator[datatransfer.TypedVoucher] {
 	})
 }
 
-// Enc returns the canonical DAG-CBOR bytes of a node ("null" marker for nil).
+// Enc returns the canonical DAG-CBOR bytes of a node ("null" marker for nil). A
+// schema-typed node stands for its representation, the form the protocol carries.
 func Enc(n datamodel.Node) []byte {
 	if n == nil {
 		return []byte("<nil>")
+	}
+	if tn, ok := n.(schema.TypedNode); ok {
+		n = tn.Representation()
 	}
 	var buf bytes.Buffer
 	if err := dagcbor.Encode(n, &buf); err != nil {
